@@ -438,9 +438,16 @@ class Verdict:
         if len(self.coverage["samples"]) < 6:
             self.coverage["samples"].append(s)
 
-    def finish(self, level="model_checking"):
+    def finish(self, level="model_checking", dry=False):
+        """dry: a --replay run; prints verdict lines but leaves evidence/ and replays/ untouched."""
         os.makedirs(EVID, exist_ok=True)
         os.makedirs(REPLAYS, exist_ok=True)
+        if dry:
+            for kid, h in sorted(self.known_hits.items()):
+                print(f"KNOWN-FINDING: property={self.prop} {h['finding']['what']} [{kid}, {h['count']} occurrence(s)]")
+            for rec, _ in self.violations[:20]:
+                print(f"REPRODUCED property={self.prop} {json.dumps(rec)[:600]}")
+            return 1 if self.violations else 0
         for kid, h in sorted(self.known_hits.items()):
             print(f"KNOWN-FINDING: property={self.prop} {h['finding']['what']} "
                   f"[{kid}, {h['count']} occurrence(s)]")
